@@ -7,7 +7,6 @@ import (
 	"strings"
 	"time"
 
-	"github.com/gorilla/mux"
 	"github.com/inbucket/inbucket/v3/pkg/config"
 	"github.com/inbucket/inbucket/v3/pkg/extension"
 	"github.com/inbucket/inbucket/v3/pkg/server"
@@ -114,7 +113,7 @@ func runC19(c *Ctx, cs Case) {
 	if k.Retention {
 		conf.Storage.RetentionPeriod = 30 * time.Minute
 	}
-	web.Router = mux.NewRouter()
+	web.Router = web.NewRouter()
 	svc, err := server.FullAssembly(conf)
 	if err != nil {
 		panic("harness: FullAssembly: " + err.Error())
